@@ -62,6 +62,8 @@ pub struct ExecOutcome {
     /// hash of the interleaving-class multiset
     pub class: u64,
     pub nontrivial: bool,
+    /// formatted records around a violation (replay mode prints them)
+    pub dump: Vec<String>,
 }
 
 impl ExecOutcome {
@@ -142,6 +144,15 @@ pub struct SchedCase {
     /// leak-checking legs: do not drive the executor-drop race (known finding: it leaks a future by construction)
     #[serde(default)]
     pub no_drop_race: bool,
+}
+
+pub fn format_recs(recs: &[Rec]) -> Vec<String> {
+    recs.iter()
+        .map(|r| {
+            let name = if r.kind >= K_HARNESS { format!("H{}", r.kind - K_HARNESS) } else { crate::hookrec::site_name(r.kind).to_string() };
+            format!("{:>6} t{} {} a={:#x} b={:#x}", r.seq, r.tid, name, r.a, r.b)
+        })
+        .collect()
 }
 
 pub fn draw_plan(rng: &mut Rng, sites: &[Site], miri: bool) -> DelayPlan {
